@@ -1,12 +1,13 @@
 //go:build verif
 
 // Injected into package server by `go build -overlay` (never committed to /repo).
-// A small interpreter for histories of store operations used by the store-core properties
-// (C01 latest view, C02 change feed, C03 relations, C06 point in time, ...).
+// Own copy of harness/store/zz_verif_store.go extended for property C07 (dataset create / delete / rename /
+// re-create / garbage collection / restart / crash points inside the dataset manager, raw key census).
 package server
 
 import (
 	"bytes"
+	"encoding/binary"
 	"encoding/json"
 	"fmt"
 	"os"
@@ -17,7 +18,10 @@ import (
 	"github.com/DataDog/datadog-go/v5/statsd"
 	"go.uber.org/zap"
 
+	"github.com/dgraph-io/badger/v4"
+
 	"github.com/mimiro-io/datahub/internal/conf"
+	"github.com/mimiro-io/datahub/internal/verifhook"
 )
 
 type VerifEnt struct {
@@ -55,6 +59,9 @@ type VerifOp struct {
 	Inverse  bool          `json:"inverse,omitempty"`
 	Starts   []string      `json:"starts,omitempty"`
 	At       *VerifTimeRef `json:"at,omitempty"`
+	To       string        `json:"to,omitempty"`    // rename: new name
+	Mop      string        `json:"mop,omitempty"`   // crash: create | delete | rename
+	Point    string        `json:"point,omitempty"` // crash: hook point name, e.g. delete.afterRecord
 }
 
 type VerifCase struct {
@@ -83,6 +90,11 @@ type VerifOpObs struct {
 	RPages  [][]VerifRel `json:"rpages,omitempty"`
 	Found   bool         `json:"found,omitempty"`
 	NewSeqs int          `json:"newseqs,omitempty"`
+	Names   []string     `json:"names,omitempty"`  // names / metas
+	Hit     bool         `json:"hit,omitempty"`    // crash: the hook point was reached (the op died there)
+	Before  [][]int      `json:"before,omitempty"` // gc / census: [family, dataset id, number of keys], sorted
+	After   [][]int      `json:"after,omitempty"`  // gc
+	BadKeys int          `json:"badkeys,omitempty"` // census: keys of a data family whose length does not fit the layout
 }
 
 type VerifObs struct {
@@ -238,6 +250,87 @@ func verifDoOp(h *verifHub, op VerifOp, idx int, times map[int]int64, tokens map
 			oo.Err = err.Error()
 		}
 	case "restart":
+		h.close()
+		h.open()
+	case "delete":
+		if err := h.dsm.DeleteDataset(op.Ds); err != nil {
+			oo.Err = err.Error()
+		}
+	case "rename":
+		if _, err := h.dsm.UpdateDataset(op.Ds, &UpdateDatasetConfig{ID: op.To}); err != nil {
+			oo.Err = err.Error()
+		}
+	case "gc":
+		oo.Before, oo.BadKeys = verifCensus(store)
+		gc := NewGarbageCollector(store, &conf.Config{Logger: zap.NewNop().Sugar(), StoreLocation: h.dir})
+		if err := gc.Cleandeleted(); err != nil {
+			oo.Err = err.Error()
+		}
+		oo.After, _ = verifCensus(store)
+	case "census":
+		oo.Before, oo.BadKeys = verifCensus(store)
+	case "names":
+		oo.Names = []string{}
+		for _, n := range h.dsm.GetDatasetNames() {
+			oo.Names = append(oo.Names, n.Name)
+		}
+		sort.Strings(oo.Names)
+	case "metas":
+		// names of the live (not deleted) dataset entities in core.Dataset
+		oo.Names = []string{}
+		core := h.dsm.GetDataset(datasetCore)
+		if core == nil {
+			oo.Err = "no core dataset"
+			return
+		}
+		_, err := core.MapEntities("", 0, func(e *Entity) error {
+			if !e.IsDeleted {
+				parts := strings.SplitN(e.ID, ":", 2)
+				if len(parts) == 2 {
+					oo.Names = append(oo.Names, parts[1])
+				}
+			}
+			return nil
+		})
+		if err != nil {
+			oo.Err = err.Error()
+		}
+		sort.Strings(oo.Names)
+	case "crash":
+		// run the manager operation with a handler that dies at the named hook point, then "restart the process":
+		// the store object is abandoned (closed) and reopened from disk.
+		type died struct{}
+		verifhook.SetHandler(func(name, arg string) {
+			if name == op.Point {
+				panic(died{})
+			}
+		})
+		func() {
+			defer func() {
+				verifhook.SetHandler(nil)
+				if r := recover(); r != nil {
+					if _, ok := r.(died); ok {
+						oo.Hit = true
+					} else {
+						oo.Panic = fmt.Sprint(r)
+					}
+				}
+			}()
+			var err error
+			switch op.Mop {
+			case "create":
+				_, err = h.dsm.CreateDataset(op.Ds, nil)
+			case "delete":
+				err = h.dsm.DeleteDataset(op.Ds)
+			case "rename":
+				_, err = h.dsm.UpdateDataset(op.Ds, &UpdateDatasetConfig{ID: op.To})
+			default:
+				err = fmt.Errorf("unknown mop %s", op.Mop)
+			}
+			if err != nil {
+				oo.Err = err.Error()
+			}
+		}()
 		h.close()
 		h.open()
 	case "batch":
@@ -436,5 +529,56 @@ func (ds *Dataset) GetChangesWatermark2() (uint64, error) {
 	return n, err
 }
 
-var _ = sort.Strings
-var _ = strings.HasPrefix
+// verifCensus scans every raw key and counts the keys of the five data families per dataset id; the dataset id is
+// decoded at the offset the garbage collector uses for that family.  Result rows [family, dataset id, count], sorted.
+func verifCensus(store *Store) ([][]int, int) {
+	counts := map[[2]int]int{}
+	bad := 0
+	_ = store.database.View(func(txn *badger.Txn) error {
+		opts := badger.DefaultIteratorOptions
+		opts.PrefetchValues = false
+		it := txn.NewIterator(opts)
+		defer it.Close()
+		for it.Rewind(); it.Valid(); it.Next() {
+			k := it.Item().Key()
+			if len(k) < 2 {
+				continue
+			}
+			fam := binary.BigEndian.Uint16(k)
+			off, want := -1, 0
+			switch fam {
+			case EntityIDToJSONIndexID:
+				off, want = 10, 24
+			case DatasetEntityChangeLog:
+				off, want = 2, 22
+			case DatasetLatestEntities:
+				off, want = 2, 14
+			case OutgoingRefIndex, IncomingRefIndex:
+				off, want = 36, 40
+			case SysDatasetsSequences:
+				off, want = 2, 6
+			}
+			if off < 0 {
+				continue
+			}
+			if len(k) != want {
+				bad++
+				continue
+			}
+			ds := int(binary.BigEndian.Uint32(k[off:]))
+			counts[[2]int{int(fam), ds}]++
+		}
+		return nil
+	})
+	rows := make([][]int, 0, len(counts))
+	for k, v := range counts {
+		rows = append(rows, []int{k[0], k[1], v})
+	}
+	sort.Slice(rows, func(i, j int) bool {
+		if rows[i][0] != rows[j][0] {
+			return rows[i][0] < rows[j][0]
+		}
+		return rows[i][1] < rows[j][1]
+	})
+	return rows, bad
+}
